@@ -133,6 +133,7 @@ def check(ctx):
     # stored on the list could ever be invalidated when an item is edited.  The only attributes its methods assign are
     # the obsolescence flags, the predecessor link and the grouping keys.
     ALLOWED_ATTRS = {"_obsolete", "_obsolete_warned", "_predecessor", "_group_keys"}
+    from ..dataflow import defs_reaching as _dr0
     n_attr = 0
     for m in cls.methods.values():
         S0 = m.params[0] if m.params else None
@@ -146,7 +147,11 @@ def check(ctx):
             if tgt is None:
                 continue
             # only attributes of a ListOfDicts: the receiver, or a local built through its own class / _new
-            if tgt[0] != S0:
+            if tgt[0] != S0 and tgt[0] in m.all_params and all(d.kind == "param" for d in _dr0(m, tgt[0], n)):
+                # an attribute stored on an ARGUMENT (the other list of a join, ...): the same stale-cache problem, on an
+                # object that belongs to the caller
+                pass
+            elif tgt[0] != S0:
                 from ..dataflow import defs_reaching as _dr
                 ds = _dr(m, tgt[0], n)
                 if not (ds and all(d.value is not None and isinstance(d.value, ast.Call) and isinstance(d.value.func, ast.Attribute)
